@@ -259,6 +259,12 @@ class MacroGen:
         return '\n'.join(lines)
 
 
+# the XS(x) -> S(x) -> #x form shows the white space c2mir keeps between the tokens of an expanded argument; it is
+# switched on with fixes/C09-8.patch in /repo (before it, `a ## <empty> b` lost its white space)
+STRINGIFY_EXPANDED = False
+MODEL_QUIRKS = '001'      # the quirk word of ocaml/driver_c09fn.ml that describes /repo as it is
+
+
 def gen_macro_case(rng, idx):
     g = MacroGen(rng, 'c%d_' % idx)
     g.gen_macros(rng.randint(1, 5))
@@ -279,6 +285,18 @@ def gen_macro_case(rng, idx):
             rest.append(g.arg(1, False))
         extra_use.append('%s%d %s ) ;' % (px, depth, ' , '.join(rest)))
         g.feats.add('call-opened-in-replacement-depth-%d' % depth)
+    if STRINGIFY_EXPANDED and rng.random() < 0.35:
+        # the spelling of a macro-EXPANDED argument (white space included) made visible: XS(x) -> S(x) -> #x
+        px = g.px + 'St'
+        extra_defs.append('#define %sS(x) #x' % px)
+        extra_defs.append('#define %sXS(x) %sS(x)' % (px, px))
+        extra_defs.append('#define %sVS(...) %sS(__VA_ARGS__)' % (px, px))
+        for _ in range(rng.randint(1, 2)):
+            if rng.random() < 0.7:
+                extra_use.append('%sXS(%s) ;' % (px, g.arg(2, False)))
+            else:
+                extra_use.append('%sVS(%s) ;' % (px, rng.choice([', ', ',', ' , ']).join(g.arg(2, False) for _ in range(rng.randint(1, 3)))))
+        g.feats.add('stringify-expanded-argument')
     text = '\n'.join([g.define_text(m) for m in g.macros] + extra_defs) + '\n' + \
            '\n'.join([g.use_text(rng.randint(1, 3))] + extra_use) + '\n'
     return text, sorted(g.feats)
@@ -529,9 +547,10 @@ _DEFINE = re.compile(r'^#define ([A-Za-z_]\w*)(\(([^)]*)\))?(.*)$')
 _RESERVED = re.compile(r'^(__\w+__|defined|_Pragma)$')
 
 
-def model_query(text, quirks='00'):
+def model_query(text, quirks=None):
     """the query line for ocaml/driver_c09fn.ml, or None when the text is outside the shape the model covers:
     `#define` lines (each name once) followed by text lines without directives"""
+    quirks = quirks or MODEL_QUIRKS
     lines = text.split('\n')
     k = 0
     secs, names = [], set()
